@@ -149,20 +149,8 @@ func errCode(err error) int64 {
 	case errors.Is(err, accum.ZeroSharesError):
 		return 8
 	}
-	m := err.Error()
-	switch {
-	case strings.HasPrefix(m, "Accumulator with given name already exists"):
-		return 1
-	case strings.HasPrefix(m, "Accumulator name cannot contain"):
-		return 2
-	case strings.HasPrefix(m, "Attempted to add zero or negative"):
-		return 5
-	case strings.HasPrefix(m, "Attempted to remove no/negative"):
-		return 6
-	case strings.HasPrefix(m, "Attempted to remove more shares"):
-		return 7
-	}
-	return 50
+	// every other error is an untyped errors.New / fmt.Errorf: its text is not an observable
+	return 5
 }
 
 func flatRecv(a *accum.AccumulatorObject) []*big.Int {
